@@ -329,6 +329,11 @@ class Buildable(Generic[T], metaclass=abc.ABCMeta):
   def __getattr__(self, name: str):
     """Get parameter with given ``name``."""
     value = self.__arguments__.get(name, _UNSET_SENTINEL)
+    if value is not _UNSET_SENTINEL:
+      # Positional arguments are stored under int keys, so a string key is a
+      # keyword argument (possibly a `**kwargs` entry that happens to be named
+      # like a positional-only or variadic parameter).
+      return value
     # Check that positional-only arguments cannot be accessed by keywords.
     param = self.__signature_info__.parameters.get(name)
     if param is not None and (
@@ -339,8 +344,6 @@ class Buildable(Generic[T], metaclass=abc.ABCMeta):
           f'{name} on {self!r} using attributes.'
       )
 
-    if value is not _UNSET_SENTINEL:
-      return value
     if dataclasses.is_dataclass(
         self.__fn_or_cls__
     ) and _field_uses_default_factory(self.__fn_or_cls__, name):
